@@ -28,6 +28,40 @@ static ssize_t nextChar(const struct iovec *curr, const struct iovec *cont, size
 	
 	return part;
 }
+static ssize_t nextSpace(const struct iovec *curr, const struct iovec *cont, size_t clen)
+{
+	static const char space[] = "\t \n\r\v", quote[] = "'\"";
+	size_t pos = 0;
+	int match = 0, prev = ' ';
+	
+	/* quote state is kept when continuing in next part */
+	while (1) {
+		const uint8_t *base = curr->iov_base;
+		size_t i, len = curr->iov_len;
+		
+		for (i = 0; i < len; ++i) {
+			const int c = base[i];
+			if (match) {
+				if (c == match && prev != '\\') {
+					match = 0;
+				}
+			}
+			else if (memchr(quote, c, sizeof(quote) - 1)) {
+				match = c;
+				continue;
+			}
+			else if (memchr(space, c, sizeof(space) - 1)) {
+				return pos + i;
+			}
+			prev = c;
+		}
+		if (!clen--) {
+			return MPT_ERROR(MissingData);
+		}
+		pos += len;
+		curr = cont++;
+	}
+}
 static int notSpace(int c, void *con)
 {
 	(void) con;
@@ -91,11 +125,8 @@ extern ssize_t mpt_message_argv(MPT_STRUCT(message) *msg, int sep)
 	}
 	/* find space character not in escapes */
 	if (!isgraph(sep)) {
-		if ((part = mpt_memtok(&curr, 1, "\t \n\r\v", NULL, "'\"")) >= 0) {
+		if ((part = nextSpace(&curr, cont, clen)) >= 0) {
 			return part;
-		}
-		if (clen && (part = mpt_memtok(cont, clen, "\t \n\r\v", NULL, "'\"")) >= 0) {
-			return curr.iov_len + part;
 		}
 		sep = 0;
 	}
